@@ -167,6 +167,14 @@ def hazard_alphabet():
     A.append(("convY>X_s3x1", conv_spec(Y, X, s=(3, 1), pad=(1, 1, 1, 1))))
     A.append(("convY>X_s1x3", conv_spec(Y, X, s=(1, 3), pad=(1, 1, 1, 1))))
     A.append(("maxpoolY>X_s3x1", pool_spec("MAX", Y, X, k=(3, 3), s=(3, 1), pad=(1, 1, 1, 1))))
+    # one-row and two-column maps with anisotropic strides: the consumer has only two or three blocks along the axis with the larger stride, so where its
+    # second and third jobs read depends on the stride of exactly that axis
+    A.append(("convX>Y_1x64", conv_spec(X, Y, k=(1, 1), pad=(0, 0, 0, 0), hw=(1, 64), cin=16, cout=16)))
+    A.append(("convY>X_1x64_s2x1", conv_spec(Y, X, k=(1, 1), s=(2, 1), pad=(0, 0, 0, 0), hw=(1, 64), cin=16, cout=16)))
+    A.append(("convX>Y_1x96", conv_spec(X, Y, k=(1, 1), pad=(0, 0, 0, 0), hw=(1, 96), cin=16, cout=16)))
+    A.append(("convY>X_1x96_k3x1_s3x1", conv_spec(Y, X, k=(3, 1), s=(3, 1), pad=(0, 1, 0, 1), hw=(1, 96), cin=16, cout=16)))
+    A.append(("convX>Y_48x2", conv_spec(X, Y, k=(1, 1), pad=(0, 0, 0, 0), hw=(48, 2), cin=16, cout=16)))
+    A.append(("convY>X_48x2_s1x3", conv_spec(Y, X, k=(1, 1), s=(1, 3), pad=(0, 0, 0, 0), hw=(48, 2), cin=16, cout=16)))
     A.append(("maxpoolY>X_s2x1_big", pool_spec("MAX", Y, X, k=(2, 2), s=(2, 1), block="largest")))
     A.append(("convY>X_big", conv_spec(Y, X, block="largest")))
     A.append(("convX>Z", conv_spec(X, Z)))
